@@ -52,6 +52,9 @@ def one(rep, rng, j, scn=None):
     scn.pop('free_sleep', None)
     scn['max_workers'] = rng.choice([1, 2, 4, None])
     scn['empty_ctx'] = rng.random() < 0.1
+    if backend == 'serial' and not scn['empty_ctx'] and rng.random() < 0.6:
+        names = list(scn['spec']['tasks'])
+        scn['ctx_mutators'] = rng.sample(names, rng.randrange(1, min(3, len(names)) + 1))
     if backend in ('fork', 'spawn') and rng.random() < 0.3:
         # a cache entry disappears between planning and loading: part of the DAG is cached, one worker, gated;
         # at the first rest point the harness deletes the entry of a load that is still queued
@@ -84,6 +87,13 @@ def _judge(rep, rng, scn, backend):
         if scn.get('empty_ctx'):
             ctx = {}        # Lab(context=None) / an empty context: every filter sees an empty dict
         scn['ctx'] = ctx
+        ctx_at_call = dict(ctx)
+        if backend == 'serial' and scn.get('ctx_mutators'):
+            # tasks of the serial backend run in the caller's memory: some of them rebind a key of the very dict the
+            # Lab was given; a task that runs later must see its filter applied to the context as it is THEN
+            for i, n in enumerate(scn['ctx_mutators']):
+                scn['task_plan'].setdefault(n, {})['ctxmut'] = [['shared', 'other', f'for_{names[0]}'][i % 3],
+                                                                 f'{can[i % 3]}-rebound-by-{n}']
         ev = {'done': None}
 
         def hooks_factory(o, gate, ev=ev):
@@ -114,10 +124,19 @@ def _judge(rep, rng, scn, backend):
                 return
             starts = [e for e in out.events if e['k'] == 'start' and e.get('gen') == 1]
             pids = {}
-            for e in starts:
+            live_ctx = dict(ctx_at_call)
+            muts = 0
+            for e in sorted((x for x in out.events if x['k'] == 'ctxmut' or (x['k'] == 'start' and x.get('gen') == 1)),
+                            key=lambda x: x['t']):
+                if e['k'] == 'ctxmut':
+                    live_ctx[e['key']] = e['value']
+                    muts += 1
+                    continue
                 rep.count('executions_observed')
+                if muts:
+                    rep.count('executions_after_a_task_rebound_the_context')
                 t = scn['spec']['tasks'][e['name']]['type']
-                want = filter_ctx(t, e['name'], ctx)
+                want = filter_ctx(t, e['name'], live_ctx)
                 if e['ctx'] != ctx_digest(want) or e['ctxkeys'] != sorted(want):
                     rep.violation('wrong-context', f"{backend}: {e['name']} ({t}) saw context keys {e['ctxkeys']} "
                                   f"digest {e['ctx']}, expected {sorted(want)} {ctx_digest(want)}", wit)
@@ -171,6 +190,7 @@ def run_shard(rep):
     rep.require('runs_spawn', 10)
     rep.require('runs_fork', 10)
     rep.require('runs_serial', 5)
+    rep.require('executions_after_a_task_rebound_the_context', 20)
     rep.require('entries_evicted_between_planning_and_loading', 5)
     for j in range(rep.shard, cfg['n'], rep.nshards):
         if rep.expired():
